@@ -52,7 +52,7 @@ func genC15(t *rapid.T) C15Case {
 		}
 		c.Conv = &x
 	case "c03":
-		x := genC03(t)
+		x := genC03Base(t)
 		c.Conv = &x
 	case "c04":
 		x := genC04(t)
